@@ -157,15 +157,34 @@ def reuse_case(first: List[dict], lay1: dict, second: List[dict], lay2: dict, c:
     c.inc('parser_reuse_histories')
     p = PbnParser()
     try:
-        got1 = p.parse_board_settings(io.StringIO(t1, newline=''))
+        mode = lay1.get('first_read', 'complete')
+        if mode == 'complete':
+            got1 = p.parse_board_settings(io.StringIO(t1, newline=''))
+        elif mode == 'peek':
+            # only the first game is looked at; the stream is never read to its end
+            g = next(p.parse_stream(io.StringIO(t1, newline='')), None)
+            got1 = None
+            if first and (g or {}).get('Board') != first[0]['id']:
+                c.violate('pbn:reuse:peek', f'peeking the first game of a file with boards {[b["id"] for b in first]} gave {g}', rp)
+        else:
+            # the first file is malformed (a game without a Deal tag): reading it fails, the parser object is kept
+            bad = t1 + ('' if t1.endswith(('\n', '\r')) or not t1 else lay1.get('eol', '\n')) + lay1.get('eol', '\n') + '[Board "broken"]' + lay1.get('eol', '\n') + '[Dealer "N"]' + lay1.get('eol', '\n')
+            got1 = None
+            try:
+                p.parse_board_settings(io.StringIO(bad, newline=''))
+                c.violate('pbn:reuse:malformed-accepted', 'a game without a Deal tag was accepted as a board setting', rp)
+            except Exception:  # noqa
+                pass
         got2 = p.parse_board_settings(io.StringIO(t2, newline=''))
     except Exception as e:  # noqa
         c.violate(f'pbn:reuse-raise:{type(e).__name__}', f'one parser reading two files in a row raised {type(e).__name__}: {e}', rp)
         return
     for which, got, boards in (('first', got1, first), ('second', got2, second)):
+        if got is None:
+            continue
         ok = len(got) == len(boards) and all(not same_board(g, b, False) for g, b in zip(got, boards))
         if not ok:
-            c.violate(f'pbn:reuse:{which}-file:{"no-blank-at-end" if not lay1.get("after") else "blank-at-end"}',
+            c.violate(f'pbn:reuse:{which}-file:{lay1.get("first_read", "complete")}:{"no-blank-at-end" if not lay1.get("after") else "blank-at-end"}',
                       f'one PbnParser object reading two files in a row: the {which} file (boards {[b["id"] for b in boards]}) was read as {[g.board_id for g in got]} '
                       f'(first file layout {lay1})', rp)
     c.see('cls', ('reuse', len(first), len(second), lay1.get('after', 0), lay1.get('final_eol', True)))
@@ -265,6 +284,9 @@ def reuse_cases(seed: int):
     for n1, n2 in itertools.product((0, 1, 2), (1, 2)):
         for after, final, eol, header in itertools.product((0, 1, 2), (True, False), ('\n', '\r\n'), ('none', 'export')):
             out.append((A[:n1], dict(after=after, final_eol=final, eol=eol, header=header), Bb[:n2], dict(eol=eol, header=header)))
+            if n1 and final:
+                for mode in ('peek', 'malformed'):
+                    out.append((A[:n1], dict(after=after, final_eol=final, eol=eol, header=header, first_read=mode), Bb[:n2], dict(eol=eol, header=header)))
     return out
 
 
@@ -282,7 +304,7 @@ def run(tier, seed, workers):
                 f'{ALPHABET!r} + inner/edge double blanks.  PBN (rendered by mc/ref/pbn.py, fed with line ends preserved): full product header(4) x LF/CRLF x blank kind(3) x '
                 'blank lines before(0..3) x between(1..3) x after(0..3) x final line end(2) for 1 and 2 boards, sub-product for 0 and 3 boards, header followed by blank lines; '
                 'the 4 required tags in all 24 orders x deal from each first seat; extra tags before/between/after, OptimumResultTable with rows, repeated tags (first wins); '
-                '7 vulnerability spellings x 4 dealers; all ids; histories in which ONE parser object reads two files in a row (first file with 0..2 boards, 0..2 blank lines at its end, with/without a final line end).  Oracle: list of BoardSetting equal to the boards rendered, in order.',
+                '7 vulnerability spellings x 4 dealers; all ids; histories in which ONE parser object reads two files in a row (first file with 0..2 boards, 0..2 blank lines at its end, with/without a final line end; the first file read completely, only peeked at through parse_stream, or malformed so that reading it fails).  Oracle: list of BoardSetting equal to the boards rendered, in order.',
         'samples': [{'pbn': '% PBN 2.1\\r\\n\\r\\n\\r\\n[Deal "E:..."]\\r\\n[Vulnerable "Love"]\\r\\n[Dealer "S"]\\r\\n[Board "a  b"]\\r\\n\\t\\r\\n\\t\\r\\n[Board ...'},
                     {'json': 'open, write(id=": ", dda), write(id=": : "), close'}],
         'exhaustive': True,
